@@ -137,6 +137,13 @@ class P(Prop):
         fuel = []
         for _ in range(rng.choice([0, 1, 1, 2, 3])):
             fuel.append([list(rng.choice(KINDS)), Fraction(rng.randint(0, 400), 8)])
+        if rng.random() < 0.12:
+            # a record with nothing but energies / running hours / GHG figures set (e.g. shore power or a battery entered by hand):
+            # no duration, no generator load, no species map, no fuel, no detail table
+            return {"duration": None, "load": None,
+                    "scalars": [Fraction(rng.randint(1, 800), 8) if rng.random() < 0.7 else Fraction(0) for _ in range(nsc)],
+                    "species": None, "species_defaultdict": False, "fuel": [],
+                    "co2": [Fraction(rng.randint(0, 800), 8) for _ in range(3)], "detail": None}
         return {
             "duration": None if rng.random() < 0.2 else rng.choice(dur_pool),
             "load": None if rng.random() < 0.3 else Fraction(rng.randint(0, 16), 16),
